@@ -58,6 +58,8 @@ pub enum AStmt {
     Delete { t: u16, pred: APred },
     Select { t: u16, pred: APred },
     Bad { kind: BadKind, t: u16 },
+    AddColumn { t: u16, ty: u8, default: Option<AVal> },
+    DropColumn { t: u16, col: u16 },
 }
 
 #[derive(Clone, Debug, Serialize, Deserialize, Hash, PartialEq)]
@@ -85,6 +87,8 @@ impl AStmt {
             AStmt::Delete { .. } => "delete",
             AStmt::Select { .. } => "select",
             AStmt::Bad { .. } => "bad_stmt",
+            AStmt::AddColumn { .. } => "add_column",
+            AStmt::DropColumn { .. } => "drop_column",
         }
     }
 }
@@ -117,6 +121,7 @@ pub struct GenOpts {
     pub defaults: bool,
     pub constraints: bool,
     pub composite_keys: bool,
+    pub alter: bool,
     pub w_select: u32,
     pub w_begin: u32,
     pub max_rows_per_insert: usize,
@@ -146,6 +151,7 @@ impl Default for GenOpts {
             defaults: true,
             constraints: true,
             composite_keys: false,
+            alter: false,
             w_select: 4,
             w_begin: 3,
             max_rows_per_insert: 3,
@@ -214,6 +220,10 @@ pub fn gen_astmt(o: &GenOpts) -> BoxedStrategy<AStmt> {
         if o.create_index {
             v.push((1, (any::<u16>(), any::<u16>()).prop_map(|(t, col)| AStmt::CreateIndex { t, col }).boxed()));
         }
+    }
+    if o.alter {
+        v.push((2, (any::<u16>(), 0u8..5, prop::option::weighted(0.3, (0u8..12).prop_map(AVal::Pool))).prop_map(|(t, ty, default)| AStmt::AddColumn { t, ty, default }).boxed()));
+        v.push((2, (any::<u16>(), any::<u16>()).prop_map(|(t, col)| AStmt::DropColumn { t, col }).boxed()));
     }
     if o.bad {
         v.push((
@@ -414,6 +424,26 @@ pub fn stmt_tags(s: &Stmt, view: &State) -> Vec<String> {
         Stmt::Delete { .. } => t.push("delete".into()),
         Stmt::Select { .. } => t.push("select".into()),
         Stmt::Bad { .. } => t.push("bad_stmt".into()),
+        Stmt::AddColumn { table, col } => {
+            t.push("ddl.add_column".into());
+            if col.default.is_some() {
+                t.push("ddl.add_column_default".into());
+            }
+            if view.tables.get(table).map(|tb| !tb.rows.is_empty()).unwrap_or(false) {
+                t.push("ddl.alter_populated".into());
+            }
+        }
+        Stmt::DropColumn { table, col } => {
+            t.push("ddl.drop_column".into());
+            if let Some(tb) = view.tables.get(table) {
+                if !tb.rows.is_empty() {
+                    t.push("ddl.alter_populated".into());
+                }
+                if *col + 1 != tb.def.cols.len() {
+                    t.push("ddl.drop_column_not_last".into());
+                }
+            }
+        }
     }
     t
 }
@@ -508,6 +538,25 @@ pub fn resolve(a: &AStmt, view: &State) -> Stmt {
             Some(tb) => Stmt::Select { table: tb.def.name.clone(), pred: resolve_pred(pred, &tb.def) },
             None => missing("sel"),
         },
+        AStmt::AddColumn { t, ty, default } => match pick_table(*t) {
+            Some(tb) => {
+                let ty = ty_of(*ty);
+                let n = (0..).find(|i| !tb.def.cols.iter().any(|c| c.name == format!("c{i}"))).unwrap();
+                Stmt::AddColumn { table: tb.def.name.clone(), col: ColDef { name: format!("c{n}"), ty, not_null: false, default: default.as_ref().map(|d| resolve_val(d, ty)).filter(|v| !v.is_null()) } }
+            }
+            None => missing("alt"),
+        },
+        AStmt::DropColumn { t, col } => match pick_table(*t) {
+            Some(tb) => {
+                let candidates: Vec<usize> = (0..tb.def.cols.len()).filter(|c| !tb.def.uniques.iter().any(|u| u.contains(c))).collect();
+                if candidates.is_empty() || tb.def.cols.len() <= 1 {
+                    Stmt::Bad { sql: format!("ALTER TABLE {} DROP COLUMN nosuch_col", tb.def.name), why: "unknown column".into() }
+                } else {
+                    Stmt::DropColumn { table: tb.def.name.clone(), col: candidates[pick_idx(*col, candidates.len())] }
+                }
+            }
+            None => missing("alt"),
+        },
         AStmt::Bad { kind, t } => {
             let tb = pick_table(*t);
             match (kind, tb) {
@@ -569,6 +618,26 @@ pub fn compare_state(db: &mut Db, view: &State, at: &str) -> Option<Failure> {
         let r = db.exec(&format!("SELECT * FROM {name}"));
         match (view.tables.get(name), r) {
             (Some(t), Ok(Out::Rows { rows, .. })) => {
+                // constraint invariants on the engine's own output (independent of the model's rows)
+                if rows.iter().all(|r| r.len() == t.def.cols.len()) {
+                    for (ci, c) in t.def.cols.iter().enumerate() {
+                        if c.not_null && rows.iter().any(|r| r[ci].is_null()) {
+                            return Some(Failure::new("invariant.null_in_not_null_column", format!("{at}: table {name} column {} is NOT NULL but holds a NULL: {}", c.name, show_rows(&rows))));
+                        }
+                    }
+                    for u in &t.def.uniques {
+                        let mut seen = BTreeSet::new();
+                        for r in &rows {
+                            if u.iter().any(|c| r[*c].is_null()) {
+                                continue;
+                            }
+                            let k: Vec<String> = u.iter().map(|c| r[*c].key()).collect();
+                            if !seen.insert(k) {
+                                return Some(Failure::new("invariant.duplicate_key_committed", format!("{at}: table {name} holds two live rows equal on unique columns {:?}: {}", u.iter().map(|c| t.def.cols[*c].name.clone()).collect::<Vec<_>>(), show_rows(&rows))));
+                            }
+                        }
+                    }
+                }
                 let want: Vec<Vec<Val>> = t.rows.values().cloned().collect();
                 if !rows_equal(&rows, &want) {
                     let clause = diff_clause(&rows, &want);
@@ -642,6 +711,13 @@ pub struct Interp {
     /// rows that carry more than one version (were updated at least once): (table, model row id)
     pub updated_rows: BTreeSet<(String, u64)>,
     checks_done: usize,
+    /// run the page auditor at every quiescent full check
+    pub audit_pages: bool,
+    pub audits_done: usize,
+    pub saw_free_pages: bool,
+    pub last_page_counts: Option<(u64, u64)>,
+    /// at least one VACUUM ran while the history already contained deletes / updates / non-committed writes
+    pub vacuum_had_work: bool,
     /// per open session: (reads done, a foreign transaction ended after its last read)
     pub sess_reads: BTreeMap<u8, (u32, bool)>,
     /// a reader observed (correctly or not) a state in which a foreign writer ended between two of its reads
@@ -681,6 +757,11 @@ impl Interp {
             poisoned_rows: BTreeSet::new(),
             updated_rows: BTreeSet::new(),
             checks_done: 0,
+            audit_pages: false,
+            audits_done: 0,
+            saw_free_pages: false,
+            last_page_counts: None,
+            vacuum_had_work: false,
             sess_reads: BTreeMap::new(),
             saw_foreign_end_between_reads: false,
             saw_concurrent_same_row_write: false,
@@ -906,6 +987,20 @@ impl Interp {
         let view = self.model.committed.clone();
         let r = compare_state(&mut self.db, &view, at);
         self.after_read();
+        if r.is_none() && self.audit_pages && self.txns.is_empty() {
+            if let Some(raw) = self.db.raw() {
+                match crate::audit::audit_database(raw) {
+                    Ok((free, total)) => {
+                        self.audits_done += 1;
+                        if free > 0 {
+                            self.saw_free_pages = true;
+                        }
+                        self.last_page_counts = Some((free, total));
+                    }
+                    Err((c, d)) => return Some(self.fail(&format!("audit.{c}"), format!("{at}: {d}"))),
+                }
+            }
+        }
         r.map(|f| {
             let d = f.detail.clone();
             self.fail(&f.clause, d)
@@ -935,6 +1030,12 @@ impl Interp {
                 let mut tags = stmt_tags(&s, &self.model.committed);
                 tags.extend(self.history_tags(&s, &self.model.committed));
                 if !self.txns.is_empty() {
+                    if tags.iter().any(|t| t.starts_with("ddl.")) {
+                        tags.push("ddl.concurrent".into());
+                    }
+                    if self.txns.values().any(|t| t.effects.iter().any(|e| matches!(e, Effect::Create(_) | Effect::Drop(_) | Effect::AddUnique { .. } | Effect::AddColumn { .. } | Effect::DropColumn { .. }))) {
+                        tags.push("stmt.while_uncommitted_ddl_open".into());
+                    }
                     if let Stmt::Insert { table, .. } = &s {
                         if self.model.committed.tables.get(table).map(|t| !t.def.uniques.is_empty()).unwrap_or(false) {
                             tags.push("insert.unique_concurrent".into());
@@ -1193,6 +1294,7 @@ impl Interp {
                             Effect::Create(_) => "txn.noncommit_after_create",
                             Effect::Drop(_) => "txn.noncommit_after_drop",
                             Effect::AddUnique { .. } => "txn.noncommit_after_create_index",
+                            Effect::AddColumn { .. } | Effect::DropColumn { .. } => "txn.noncommit_after_alter",
                         }
                         .to_string(),
                     );
@@ -1289,6 +1391,7 @@ impl Interp {
                             Effect::Create(_) => "txn.noncommit_after_create",
                             Effect::Drop(_) => "txn.noncommit_after_drop",
                             Effect::AddUnique { .. } => "txn.noncommit_after_create_index",
+                            Effect::AddColumn { .. } | Effect::DropColumn { .. } => "txn.noncommit_after_alter",
                         };
                         tags.push(tg.to_string());
                     }
@@ -1372,7 +1475,17 @@ impl Interp {
                 if self.skip_if_excluded(&["admin.vacuum".to_string()]) {
                     return None;
                 }
+                let live_poisoned = self.poisoned_rows.iter().any(|(t, id)| self.model.committed.tables.get(t).map(|tb| tb.rows.contains_key(id)).unwrap_or(false));
+                if live_poisoned {
+                    if self.skip_if_excluded(&["admin.vacuum_after_rolled_back_delete".to_string()]) {
+                        return None;
+                    }
+                    self.tags.insert("admin.vacuum_after_rolled_back_delete".into());
+                }
                 self.trace(format!("[{i}] vacuum"));
+                if self.tags.iter().any(|t| t == "delete" || t == "update" || t.starts_with("txn.noncommit_after") || t == "failed_stmt" || t == "ddl.drop_table") && !self.model.committed.tables.is_empty() {
+                    self.vacuum_had_work = true;
+                }
                 self.tags.insert("admin.vacuum".into());
                 match self.db.vacuum() {
                     Ok(()) => {}
